@@ -191,8 +191,8 @@ impl SignedPacket {
 //@rw R8 1
 //@- bytes.extend_from_slice(&timestamp.to_be_bytes());
 //@+ let ts_bytes = timestamp.to_be_bytes(); bytes.extend_from_slice(&ts_bytes);
-//@ins before 1
-//@- Self::from_bytes_unchecked(&bytes)
+//@ins after 1
+//@- bytes.extend_from_slice(encoded_packet);
 //@| proof {
 //@|     if public_key@.len() == 32 && signature@.len() == 64 {
 //@|         assert(bytes@.subrange(0, 32) =~= public_key@);
